@@ -318,6 +318,8 @@ def rule_r4(facts, rep, rid="C10-R4"):
             bd = c.binds.get(kb.get("id")) if kb.get("k") == "path" else None
             if bd and bd[0] == "expr" and any(y.get("k") == "mcall" and y["name"] == "key_of" for y in fb.walk(bd[1])):
                 oks = True
+            elif any(a[0] == "call" and fb.last_seg(a[1]) == "key_of" for a in c.vprov(ke)):
+                oks = True      # the same value through a constructor helper's parameter (`Change::update(key.clone(), ..)`)
         if oks:
             rep.ok(rid, key, "vec![Update{key: key_of(target), ..}]", fc.loc)
         else:
